@@ -128,18 +128,19 @@ func c03Rebuild(lines []c03ShapeLine, depth int) (height int, problem string) {
 }
 
 type c03Machine struct {
-	c         *harness.Case
-	db        dbm.DB
-	cacheSize int
-	tree      *iavl.MutableTree
-	work      kv.Model
-	saved     map[int64]kv.Model // retained versions
-	latest    int64
-	maxEver   int64
-	removed   map[string]bool // keys removed at some point (probed for staleness)
-	keygen    *rapid.Generator[[]byte]
-	dirty     bool // working tree changed since the last save / load
-	saves     int
+	c          *harness.Case
+	db         dbm.DB
+	cacheSize  int
+	tree       *iavl.MutableTree
+	work       kv.Model
+	saved      map[int64]kv.Model // retained versions
+	latest     int64
+	maxEver    int64
+	removed    map[string]bool // keys removed at some point (probed for staleness)
+	keygen     *rapid.Generator[[]byte]
+	dirty      bool // working tree changed since the last save / load
+	saves      int
+	rolledBack bool
 }
 
 func (m *c03Machine) retained() []int64 {
@@ -593,8 +594,35 @@ func TestC03(t *testing.T) {
 					m.latest = target
 					m.work = m.saved[target].Clone()
 					m.dirty = false
+					m.rolledBack = true
 					if nt.Version() != target {
 						c.Violation("C03/rollback/version-differs", "after rollback Version()=%d want %d", nt.Version(), target)
+					}
+				},
+				"deleteVersion": func(rt *rapid.T) {
+					// pruning of one retained version that is not the latest (MutableTree.DeleteVersion, the tree's public
+					// pruning API): every other retained version and the working tree must stay exactly what they were
+					vs := m.retained()
+					if len(vs) < 2 {
+						rt.Skip("need two versions")
+					}
+					v := rapid.SampledFrom(vs[:len(vs)-1]).Draw(rt, "ver")
+					c.Opf("deleteVersion v%d (retained %v)", v, vs)
+					c.Label("delete-version")
+					if m.rolledBack {
+						c.Label("delete-version-after-rollback")
+					}
+					var err error
+					if msg, p := guard(func() { err = m.tree.DeleteVersion(v) }); p {
+						c.Violation("C03/delete-version/panic", "DeleteVersion(%d) panicked: %s", v, msg)
+					}
+					if err != nil {
+						c.Violation("C03/delete-version/error-for-retained-version", "DeleteVersion(%d) with retained %v, latest %d: %v", v, vs, m.latest, err)
+					}
+					delete(m.saved, v)
+					// read a neighbour right away (the nodes the deleted version shared with it must survive)
+					if rest := m.retained(); len(rest) > 0 {
+						checkVersion(rest[rapid.IntRange(0, len(rest)-1).Draw(rt, "neighbour")], 0)
 					}
 				},
 				"": func(rt *rapid.T) {
